@@ -7,7 +7,7 @@
    (5) lap_gauss commutes with Q2R. *)
 From MiniMcmc Require Import Base.Num Model.DualAvg Model.FindEps Proofs.DualAvg Proofs.Q2R.
 From Coq Require Import Reals Qreals Lra Lia List.
-From Interval Require Import Tactic.
+From Interval Require Import Interval Xreal.
 Close Scope Q_scope.
 Open Scope R_scope.
 
@@ -233,10 +233,30 @@ End Bracket.
 
 (* ------------------------------------------------------------------ (4) the rational bounds *)
 
+(* ln(1/2) - n/d enclosed by 80-bit interval arithmetic (Model.DualAvg.I, soundness lemmas c_* of
+   Proofs/DualAvg.v); the sign of the enclosure decides the comparison.  (No Interval.Tactic: its library
+   closure is very expensive for the stand-alone checker coqchk.) *)
+Definition lnhalf_gap (n d : Z) : I.type :=
+  I.sub iprec (I.ln iprec (I.div iprec (I.fromZ iprec 1) (I.fromZ iprec 2)))
+              (I.div iprec (I.fromZ iprec n) (I.fromZ iprec d)).
+
+Lemma lnhalf_gap_sound (n d : Z) : cont (lnhalf_gap n d) (ln (1 / 2) - IZR n / IZR d).
+Proof. apply c_sub; [apply c_ln; apply c_div; apply c_ofZ | apply c_div; apply c_ofZ]. Qed.
+
+Lemma lnhalf_gap_signs :
+  I.sign_strict (lnhalf_gap (-6931471806) 10000000000) = Xgt /\
+  I.sign_strict (lnhalf_gap (-6931471805) 10000000000) = Xlt.
+Proof. vm_compute. split; reflexivity. Qed.
+
 Theorem lnhalf_bounds : Q2R lnhalf_lo < ln (1 / 2) < Q2R lnhalf_hi.
 Proof.
-  unfold lnhalf_lo, lnhalf_hi, Q2R. cbn [Qnum Qden].
-  split; interval with (i_prec 60).
+  unfold lnhalf_lo, lnhalf_hi, Q2R. cbn [Qnum Qden]. destruct lnhalf_gap_signs as [Hlo Hhi].
+  pose proof (I.sign_strict_correct (lnhalf_gap (-6931471806) 10000000000)) as Slo.
+  pose proof (I.sign_strict_correct (lnhalf_gap (-6931471805) 10000000000)) as Shi.
+  rewrite Hlo in Slo. rewrite Hhi in Shi.
+  destruct (Slo _ (lnhalf_gap_sound _ _)) as [_ Glo].
+  destruct (Shi _ (lnhalf_gap_sound _ _)) as [_ Ghi].
+  cbn [proj_val] in Glo, Ghi. unfold Rdiv in *. lra.
 Qed.
 
 (* ------------------------------------------------------------------ (5) lap_gauss commutes with Q2R *)
